@@ -128,6 +128,9 @@ def run_npz(p):
             dem, cap = torch.randint(1, 10, (B, n)).float(), torch.tensor([20.0 + 10 * b for b in range(B)])
             np.savez(f, locs=torch.rand(B, n, 2).numpy(), depot=torch.rand(B, 2).numpy(), demand=dem.numpy(), capacity=cap.numpy())
             back = CVRPEnv.load_data(f)
+            again = CVRPEnv.load_data(f)
+            if tuple(again["demand"].shape) != (B, n) or not torch.allclose(again["demand"], dem / cap[:, None]):
+                bad.append(f"loading the same file a second time gives different demands {again['demand'].tolist()} (expected stored demand / capacity {(dem / cap[:, None]).tolist()})")
             if tuple(back["demand"].shape) != (B, n):
                 bad.append(f"demand has shape {tuple(back['demand'].shape)} after load_data, stored {(B, n)}")
             elif not torch.allclose(back["demand"], dem / cap[:, None]):
@@ -173,3 +176,12 @@ def run_cvrp_bits(p):
     finally:
         shutil.rmtree(tmp, ignore_errors=True)
     return {"violations": bad[:3]}
+
+
+def run_check_extension(p):
+    from rl4co.data.utils import check_extension
+
+    fn = p["filename"]
+    out = check_extension(fn)
+    ok = out == fn + ".npz" or (out == fn and fn.endswith(".npz") and len(fn) >= 4)
+    return {"violations": [] if ok else [f"check_extension({fn!r}) returns {out!r}: characters of the name are lost (a dataset written under this name is not found again / collides with siblings)"]}
